@@ -18,7 +18,8 @@ ARITH = ("Add", "Sub", "Mul", "AddWithOverflow", "SubWithOverflow", "MulWithOver
 def rules(ctx, db):
     R = ctx.rule
     R("R1", "TAINT", "an integer decoded from peer bytes (from_*_bytes) is used in arithmetic or handed on as a length "
-      "only where a dominating comparison bounds it by an untainted value (or after checked_/saturating_/min)")
+      "only where a dominating comparison bounds it by an untainted value (or after checked_/saturating_/min); the "
+      "completeness tests are strict and involve the prefix / suffix lengths the frame is announced with")
     R("R1b", "PAIR", "a slice built at CMSG_DATA has the length cmsg_len minus the header (CMSG_LEN(0)) or a constant "
       "payload size; the encoder writes CMSG_LEN(size) and advances by CMSG_SPACE(size)")
     R("R2", "ORD", "framed read: extract ≺ decode ≺ advance(frame.len()); the stream ends only at the second EOF")
@@ -64,6 +65,45 @@ def rules(ctx, db):
                "peer-chosen length must be compared with what is buffered before it is added to / used as an "
                "offset%s" % ((": " + "; ".join(sorted(set(bad)))) if bad else ""), f)
     ctx.floor("R1", "integers decoded from input in extract impls", n_src, 2)
+    # the completeness test accounts for everything the returned frame covers: Frame::new(prefix, payload, suffix) with a
+    # peer-chosen payload is announced only behind a comparison of the buffered length that involves the payload *and*
+    # the prefix (and suffix) it is announced with — `buffered < payload` alone lets a frame end beyond the buffer
+    from ..arith import Sigs, _cmp_edges
+    n_fr = 0
+    for f in ext:
+        srcs = [(bb, t) for bb, t in calls(f, FROM_BYTES)]
+        if not srcs:
+            continue
+        tainted = taint_forward(f, [t["dst"]["l"] for bb, t in srcs], sanitiser=lambda t: False)
+        sigs = Sigs(f)
+        for bb, t in calls(f, r"^compio_io::framed::frame::Frame::new$"):
+            pay = op_place(t["args"][1]) if len(t.get("args", [])) == 3 else None
+            if pay is None or pay["l"] not in tainted:
+                continue
+            n_fr += 1
+            extra = [a for a in (t["args"][0], t["args"][2]) if op_place(a) is not None]
+            want = [sigs.operand(a) for a in extra]
+            missing = list(want)
+            for op, ops, sbb, t_t, f_t in _cmp_edges(f):
+                if not any(e is not None and f.cfg.edge_dominates(sbb, e, bb) for e in (t_t, f_t)):
+                    continue
+                cone_sigs, has_len, has_pay = set(), False, False
+                for o in ops:
+                    pp = op_place(o)
+                    if pp is None:
+                        continue
+                    locs, croots, places = data_deps(f, pp["l"])
+                    has_len = has_len or any(call_matches(ct, r"::(len|buf_len)$") for _, ct in croots)
+                    has_pay = has_pay or bool(locs & tainted)
+                    cone_sigs.add(sigs.operand(o))
+                    for pl in places:
+                        cone_sigs.add(sigs.place(pl))
+                if has_len and has_pay:
+                    missing = [w for w in missing if w not in cone_sigs]
+            ctx.ob("R1", "frame-test-covers-prefix-and-suffix:" + f.name, not missing,
+                   "the comparison of the buffered length that admits a frame with a peer-chosen payload also involves the "
+                   "prefix / suffix lengths the frame is announced with", f)
+    ctx.floor("R1", "frames announced with a peer-chosen payload length", n_fr, 1)
     # completeness tests are strict: a buffer holding *exactly* a complete frame (e.g. a header with an empty
     # payload, or header + exactly `len` bytes) is complete
     for f in ext:
